@@ -102,7 +102,8 @@ def generate(rng, tier):
             nc = rng.choice([4, 5])
             P = nc * (nc - 1) // 2
             nrd = rng.choice([3, 6, 7, 9])
-            out.append(dict(kind='evalboot', call='evalboot', M=M, n_cond=nc, routine=rng.choice(['rdm', 'rdm', 'pattern', 'both']),
+            out.append(dict(kind='evalboot', call='evalboot', M=M, n_cond=nc,
+                            routine=rng.choice(['rdm', 'rdm', 'pattern', 'both', 'bcv_rdm', 'bcv_rdm', 'bcv_pattern', 'bcv_both']),
                             data8=[[rng.randint(1, 40) for _ in range(P)] for _ in range(nrd)], N=rng.randint(6, 10),
                             models8=[[rng.randint(1, 40) for _ in range(P)] for _ in range(M)], boot_nc=rng.random() < 0.6,
                             seed=rng.randrange(10 ** 6)))
@@ -241,9 +242,13 @@ def run(c):
         D = RDMs(np.array(c['data8'], float) / 8)
         models = [ModelFixed(f'm{i}', np.array(v, float) / 8) for i, v in enumerate(c['models8'])]
         f = {'rdm': rsatoolbox.inference.eval_bootstrap_rdm, 'pattern': rsatoolbox.inference.eval_bootstrap_pattern,
-             'both': rsatoolbox.inference.eval_bootstrap}[c['routine']]
+             'both': rsatoolbox.inference.eval_bootstrap}.get(c['routine'])
         np.random.seed(c['seed'])
-        res = f(models, D, method='cosine', N=c['N'], boot_noise_ceil=c['boot_nc'])
+        if c['routine'].startswith('bcv_'):      # bootstrap-cross-validation resampling one factor or both (seeded change C06-m9)
+            res = rsatoolbox.inference.bootstrap_crossval(models, D, method='cosine', N=c['N'], k_pattern=1, k_rdm=2, n_cv=2,
+                                                          boot_type=c['routine'][4:])
+        else:
+            res = f(models, D, method='cosine', N=c['N'], boot_noise_ceil=c['boot_nc'])
         o = result_obs(res)
         o['variances'] = np.asarray(res.variances, float).tolist()
         o['n_rdm_data'], o['n_cond_data'] = int(D.n_rdm), int(D.n_cond)
@@ -368,7 +373,7 @@ def oracle(c, o):
         if V.ndim != 2 or np.isnan(V).any():
             return None
         M = c['M']
-        n = {'rdm': o['n_rdm_data'], 'pattern': o['n_cond_data'], 'both': min(o['n_rdm_data'], o['n_cond_data'])}[c['routine']]
+        n = {'rdm': o['n_rdm_data'], 'pattern': o['n_cond_data'], 'both': min(o['n_rdm_data'], o['n_cond_data'])}[c['routine'].replace('bcv_', '')]
         fac = n / (n - 1)
         want_model = fac * np.diag(V)[:M]
         want_diff = [fac * (V[i, i] + V[j, j] - 2 * V[i, j]) for i in range(M) for j in range(i + 1, M)]
